@@ -540,6 +540,128 @@ fn runtime_fn(file: &syn::File, fname: &str) -> Result<(Vec<String>, &'static st
     Ok((kinds, if which == "drop" { ".drop" } else { ".clone" }))
 }
 
+// -- generate_drop_body / generate_clone_body: which body a type gets --------------------------
+
+/// `(runtime shortcut first?, arms of the `match` on the type)`: the shortcut is
+/// `if let Some(f) = self.get_runtime_…(ty) { <emit the runtime function on the value>; self.emit_return(None); return; }`
+fn body_dispatch(file: &syn::File, fname: &str) -> Result<(bool, Vec<String>), String> {
+    let is_drop = fname == "generate_drop_body";
+    let f = find::func(file, fname, None)?;
+    let shortcut = if is_drop {
+        "ifletSome(drop_fn)=self.get_runtime_drop(ty){self.emit(Instruction::Drop{var:root_var.clone().into(),drop:Some(drop_fn),});self.emit_return(None);return;}"
+    } else {
+        "ifletSome(clone_fn)=self.get_runtime_clone(ty){self.emit(Instruction::Clone{to:return_var.into(),from:root_var.into(),clone_fn,});self.emit_return(None);return;}"
+    };
+    let mut seen_shortcut = false;
+    let mut arms = vec![];
+    let mut seen_match = false;
+    for st in &f.block.stmts {
+        if is_hook(st) {
+            continue;
+        }
+        let s = norm(st);
+        if s == shortcut {
+            if seen_match {
+                return Err(format!("{fname}: the runtime shortcut comes after the match"));
+            }
+            seen_shortcut = true;
+            continue;
+        }
+        if let syn::Stmt::Expr(syn::Expr::Match(m), _) = st {
+            if norm(&m.expr) != "self.ctx.type_info.ty_pool.get(ty)" || seen_match {
+                return Err(format!("{fname}: unexpected match on `{}`", norm(&m.expr)));
+            }
+            seen_match = true;
+            for a in &m.arms {
+                if a.guard.is_some() {
+                    return Err(format!("{fname}: guarded arm"));
+                }
+                let b = norm(&a.body);
+                let arm = if b == "{self.emit_return(None);}" {
+                    ".ret"
+                } else if is_drop && b == "{letfields=fields.clone();self.generate_drop_body_record(root_var,&fields);}" {
+                    ".recordLoop"
+                } else if !is_drop && (b == "{letfields=fields.clone();self.generate_clone_body_record(return_var,root_var,&fields)}" || b == "{letfields=fields.clone();self.generate_clone_body_record(return_var,root_var,&fields);}") {
+                    ".recordLoop"
+                } else if is_drop && b == "{letvariants=variants.clone();self.generate_drop_body_enum(root_var,&variants);}" {
+                    ".enumSwitch"
+                } else if !is_drop && b == "{letvariants=variants.clone();self.generate_clone_body_enum(return_var,root_var,&variants,);}" {
+                    ".enumSwitch"
+                } else if !is_drop && b == "{letsize=self.layout_of(ty).unwrap().size()asu32;self.emit_memcpy(return_var.into(),root_var.into(),size);self.emit_return(None);}" {
+                    ".memcpyRet"
+                } else if b.starts_with("{ice!(") {
+                    ".ice"
+                } else {
+                    return Err(format!("{fname}: arm body outside the translated subset: `{b}`"));
+                };
+                // `A | B` patterns are two arms with the same body
+                let pats: Vec<&syn::Pat> = match &a.pat {
+                    syn::Pat::Or(o) => o.cases.iter().collect(),
+                    p => vec![p],
+                };
+                for p in pats {
+                    arms.push(format!("({}, {arm})", kpat(p).map_err(|e| format!("{fname}: {e}"))?));
+                }
+            }
+            continue;
+        }
+        // the entry block and the variables the body works on
+        let setup = s.starts_with("self.blocks.push(Block{label:self.ctx.label_store.new_label(ident),instructions:Vec::new(),});")
+            || s == "letroot_var=Var{scope,kind:VarKind::Explicit(\"val\".into()),};"
+            || s == "letreturn_var=Var{scope,kind:VarKind::Return,};";
+        if !setup || seen_match {
+            return Err(format!("{fname}: statement outside the translated subset: {}", st.to_token_stream()));
+        }
+    }
+    if !seen_match {
+        return Err(format!("{fname}: no match on the type"));
+    }
+    Ok((seen_shortcut, arms))
+}
+
+/// `Lowerer::call_runtime`: when the vtable handed to a generic runtime function (lists) gets a
+/// clone / drop function for the element type, and which generated function that is
+fn vtable_fn(file: &syn::File, which: &str) -> Result<String, String> {
+    let f = find::func(file, "call_runtime", None)?;
+    let body = norm(&f.block);
+    let want = format!(
+        "let{which}_func_addr=ifself.needs_{which}(ty_ref){{lettmp=self.new_tmp(IrType::Pointer);self.emit(Instruction::FunctionAddress{{to:tmp.clone(),name:format!(\"::generated::{which}_{{type_id}}\").into(),}});self.ctx.{which}s_to_generate.push_back(ty_ref);tmp.into()}}else{{Operand::Value(crate::lir::IrValue::Pointer(0))}};");
+    if body.matches(&want).count() != 1 {
+        return Err(format!("call_runtime: `let {which}_func_addr = if self.needs_{which}(ty_ref) {{ <address of ::generated::{which}_<type> , requested> }} else {{ null }};` not found exactly once"));
+    }
+    if !body.contains("lettype_id=ty_ref.type_id();") {
+        return Err("call_runtime: `let type_id = ty_ref.type_id();` not found".into());
+    }
+    // the address is what is written into the vtable slot
+    let slot = format!("self.emit_write(dst,{which}_func_addr);");
+    if body.matches(&slot).count() != 1 {
+        return Err(format!("call_runtime: `{which}_func_addr` is not written into the vtable exactly once"));
+    }
+    Ok(format!("⟨.{which}, .{which}⟩"))
+}
+
+/// `call_clone_of`, arm (Pointer, Pointer): must hand the two addresses and the type to
+/// `call_clone_function` and do nothing else
+fn clone_of_pointer_arm(file: &syn::File) -> Result<(), String> {
+    let f = find::func(file, "call_clone_of", None)?;
+    let ms = find::matches_on(&f.block, "(to,from)");
+    if ms.len() != 1 {
+        return Err("call_clone_of: `match (to, from)` not found".into());
+    }
+    let want_pat = "(Location::Pointer{base:base_to,offset:offset_to,},Location::Pointer{base:base_from,offset:offset_from,},)";
+    let arm = ms[0].arms.iter().find(|a| norm(&a.pat) == want_pat).ok_or("call_clone_of: the (Pointer, Pointer) arm was not found")?;
+    let b = norm(&arm.body);
+    let a1 = "{letfrom=self.offset(base_from,offset_fromasu32);letto=self.offset(base_to,offset_toasu32);self.call_clone_function(from,to,ty);}";
+    let a2 = "{letto=self.offset(base_to,offset_toasu32);letfrom=self.offset(base_from,offset_fromasu32);self.call_clone_function(from,to,ty);}";
+    if b != a1 && b != a2 {
+        return Err(format!("call_clone_of: the (Pointer, Pointer) arm does something else than `call_clone_function(from, to, ty)` on the two addresses: `{b}`"));
+    }
+    if norm(&f.sig.inputs) != "&mutself,to:Location,from:Location,ty:TyRef" {
+        return Err("call_clone_of: unexpected parameters".into());
+    }
+    Ok(())
+}
+
 fn glueloops(repo: &Path) -> Result<String, String> {
     let drops = find::parse(repo, "src/lir/lower/drops.rs")?;
     let clones = find::parse(repo, "src/lir/lower/clones.rs")?;
@@ -568,6 +690,14 @@ fn glueloops(repo: &Path) -> Result<String, String> {
     let (ck, cf) = runtime_fn(&clones, "get_runtime_clone")?;
     out.push_str(&format!("/-- `get_runtime_drop`: the kinds looked up among the registered types, and the function of the `CloneDrop` pair it returns -/\ndef runtimeDropKinds : List KPat := {}\ndef runtimeDropField : Fn := {df}\n\n", list(&dk)));
     out.push_str(&format!("/-- `get_runtime_clone` -/\ndef runtimeCloneKinds : List KPat := {}\ndef runtimeCloneField : Fn := {cf}\n\n", list(&ck)));
+    clone_of_pointer_arm(&clones)?;
+    let (dsc, darms) = body_dispatch(&drops, "generate_drop_body")?;
+    let (csc, carms) = body_dispatch(&clones, "generate_clone_body")?;
+    out.push_str(&format!("/-- `generate_drop_body`: the runtime shortcut comes first; then the arms of the match on the type -/\ndef dropBody : BodyFn := ⟨{dsc}, {}⟩\n\n", list(&darms)));
+    out.push_str(&format!("/-- `generate_clone_body` -/\ndef cloneBody : BodyFn := ⟨{csc}, {}⟩\n\n", list(&carms)));
+    let lower = find::parse(repo, "src/lir/lower.rs")?;
+    out.push_str(&format!("/-- `call_runtime`: the vtable of an element type gets a clone function when `needs_clone`, namely `::generated::clone_<type>` -/\ndef vtableClone : VtFn := {}\n\n", vtable_fn(&lower, "clone")?));
+    out.push_str(&format!("/-- `call_runtime`: … a drop function when `needs_drop`, namely `::generated::drop_<type>` -/\ndef vtableDrop : VtFn := {}\n\n", vtable_fn(&lower, "drop")?));
     out.push_str("/-- `needs_drop` / `needs_clone` by name -/\ndef arms : Fn → List (KPat × NeedArm)\n  | .drop => needsDropArms\n  | .clone => needsCloneArms\n\n");
     out.push_str("/-- the loops and the call decisions as the current source has them -/\ndef prog : Prog :=\n  { dropRecord := dropRecord, dropEnumPre := dropEnumPre, dropEnum := dropEnum,\n    cloneRecord := cloneRecord, cloneEnumPre := cloneEnumPre, cloneEnum := cloneEnum,\n    dropCall := dropCall, cloneCall := cloneCall }\n\nend RotoV.Gen.GlueLoops\n");
     Ok(out)
